@@ -55,6 +55,12 @@ def run_case(case):
     end = cal.ts6(case['end'])
     d1 = cal.date3(case['end'])
     pre = case['pre']
+    pre_how = case.get('pre_how', 'bool')
+    if pre_how == 'numpy':
+        import numpy as np
+        pre = np.bool_(pre)         # a flag read from a numpy / pandas comparison
+    elif pre_how == 'int':
+        pre = int(pre)
     if kind == 'weekly':
         wd = case['weekday']
         name = cal.WEEKDAYS[wd]
@@ -110,7 +116,8 @@ def cases(draw):
     kind = draw(st.sampled_from(['weekly', 'weekly', 'daily', 'end_of_month', 'end_of_month', 'buy_and_hold']))
     dur = gen.short_durations if kind == 'daily' else gen.durations
     start, end = draw(gen.ranges(dur=dur))
-    case = {'kind': kind, 'start': start, 'end': end, 'pre': draw(st.booleans())}
+    case = {'kind': kind, 'start': start, 'end': end, 'pre': draw(st.booleans()),
+            'pre_how': draw(st.sampled_from(['bool', 'bool', 'numpy', 'int']))}
     if kind == 'weekly':
         case['weekday'] = draw(st.integers(0, 4))
         case['lower'] = draw(st.booleans())
